@@ -64,7 +64,8 @@ type Exchange struct {
 	Parsed         bool // the server side could parse the request head
 	Served         int  // number of times the handler ran (dup_request: 2)
 	Status         int
-	WriteHeaders   int // explicit WriteHeader calls
+	WriteHeaders   int // explicit WriteHeader calls (final status codes)
+	Informational  []int // 1xx responses sent before the final one
 	HeaderAfterWrite bool
 	RespHeader     http.Header
 	RespBody       []byte // as written by the handler
@@ -353,6 +354,11 @@ func (r *recorder) Header() http.Header {
 
 func (r *recorder) WriteHeader(code int) {
 	r.n.yield("net-writeheader")
+	if code >= 100 && code <= 199 && code != http.StatusSwitchingProtocols && !r.wrote {
+		// informational responses (Early Hints, Processing, Continue) go out at once and commit nothing
+		r.ex.Informational = append(r.ex.Informational, code)
+		return
+	}
 	r.ex.WriteHeaders++
 	if r.wrote {
 		return // net/http ignores (and logs) superfluous calls
